@@ -32,6 +32,7 @@ def run(ctx):
     expected_tiles = {x["pos"]: x for x in t.tiles}
     worst = {"corner": 0.0, "route": 0.0, "shared": 0.0, "area": 0.0}
     reals = {}
+    pyramids = []
     for csname, cs in toastlat.coordsystems():
         psi = toastlat.psi_for(t, csname)
         ctx.note("grid_selfcheck_" + csname, toastlat.selfcheck_grid(psi, ctx.rng))
@@ -125,23 +126,13 @@ def run(ctx):
                     ctx.violation("C04:route:filtered", "tile %s [%s] from filtered enumeration differs from full enumeration (%.2e)" % (tuple(tile.pos), csname, d), {"pos": tuple(tile.pos), "cs": csname})
         reals[csname] = real
         pd = 3
-        # ... and the filtered / sub-pyramid constructors of Pyramid (they must hand the coordinate system down too)
-        for label, pyr in (("filtered", Pyramid.new_toast_filtered(pd, lambda t_: (t_.pos.x + t_.pos.y) % 3 != 2 or t_.pos.n < 2, coordsys=cs)),
-                           ("subpyramid", Pyramid.new_toast(pd, coordsys=cs).subpyramid(Pos(2, 1, 2)))):
-            for ppos, ptile in pyr._generator():
-                if ptile is None:
-                    continue
-                ctx.count()
-                d = float(np.abs(toastlat.tile_vecs(ptile) - toastlat.tile_vecs(real[tuple(ppos)])).max())
-                if d > XTOL or tuple(ptile.pos) != tuple(ppos):
-                    ctx.violation("C04:route:pyramid-" + label, "%s Pyramid generator tile %s [%s] differs from enumeration (%.2e)" % (label, tuple(ppos), csname, d), {"pos": tuple(ppos), "cs": csname})
-        for ppos, ptile in Pyramid.new_toast(pd, coordsys=cs)._generator():
-            if ptile is None:
-                continue
-            ctx.count()
-            d = float(np.abs(toastlat.tile_vecs(ptile) - toastlat.tile_vecs(real[tuple(ppos)])).max())
-            if d > XTOL or tuple(ptile.pos) != tuple(ppos):
-                ctx.violation("C04:route:pyramid", "Pyramid generator tile %s [%s] differs from enumeration (%.2e)" % (tuple(ppos), csname, d), {"pos": tuple(ppos), "cs": csname})
+        # ... and the constructors of Pyramid (they must hand the coordinate system down too): the objects of BOTH coordinate
+        # systems are constructed first and enumerated afterwards, in mixed order (see below), so that nothing a later
+        # construction sets can reach an object constructed earlier
+        pyramids.append((csname, "filtered", "C04:route:pyramid-filtered", Pyramid.new_toast_filtered(pd, lambda t_: (t_.pos.x + t_.pos.y) % 3 != 2 or t_.pos.n < 2, coordsys=cs)))
+        pyramids.append((csname, "subpyramid", "C04:route:pyramid-subpyramid", Pyramid.new_toast(pd, coordsys=cs).subpyramid(Pos(2, 1, 2))))
+        pyramids.append((csname, "subpyramid of a filtered", "C04:route:pyramid-subpyramid", Pyramid.new_toast_filtered(pd, lambda t_: True, coordsys=cs).subpyramid(Pos(1, 0, 1))))
+        pyramids.append((csname, "plain", "C04:route:pyramid", Pyramid.new_toast(pd, coordsys=cs)))
         # ---- areas: each level sums to the sphere, each parent equals the sum of its children
         adepth = 4 if q else 6
         areas = {}
@@ -162,6 +153,28 @@ def run(ctx):
                 worst["area"] = max(worst["area"], rel)
                 if rel > 1e-9:
                     ctx.violation("C04:area:nesting", "tile %s [%s]: area %.6e but its children sum to %.6e" % (pos, csname, a, s), {"pos": pos, "cs": csname})
+    # ---- the Pyramid objects constructed above, enumerated now (generator and leaf visit), newest first and oldest first
+    for order in (list(reversed(pyramids)), pyramids):
+        for csname, label, key, pyr in order:
+            real = reals[csname]
+            seenp = []
+            for ppos, ptile in pyr._generator():
+                if ptile is None:
+                    continue
+                ctx.count()
+                d = float(np.abs(toastlat.tile_vecs(ptile) - toastlat.tile_vecs(real[tuple(ppos)])).max())
+                if d > XTOL or tuple(ptile.pos) != tuple(ppos):
+                    ctx.violation(key, "%s Pyramid generator tile %s [%s] differs from enumeration (%.2e)" % (label, tuple(ppos), csname, d), {"pos": tuple(ppos), "cs": csname})
+                    break
+
+            def leaf(ppos, ptile, real=real, key=key, label=label, csname=csname):
+                ctx.count()
+                d = float(np.abs(toastlat.tile_vecs(ptile) - toastlat.tile_vecs(real[tuple(ppos)])).max())
+                if d > XTOL or tuple(ptile.pos) != tuple(ppos):
+                    ctx.violation(key + ":leaf-visit", "%s Pyramid leaf visit hands out tile %s [%s] with corners differing from enumeration (%.2e)" % (label, tuple(ppos), csname, d), {"pos": tuple(ppos), "cs": csname})
+            from lib import simrun as _sr
+            with _sr.quiet():
+                pyr.visit_leaves(leaf, parallel=1)
     # ---- route 3: single-tile construction; route 4: point lookup of the centre - with the two coordinate systems
     # INTERLEAVED call by call, so that any state kept between calls (a memo keyed without the coordinate system ...) shows
     sample = list(reals["astronomical"])
